@@ -305,7 +305,7 @@ func (fc *FnCtx) chanInvFor(ch ssa.Value) (ast.Expr, string) {
 		return inv, class
 	}
 	if ct, ok := ch.Type().Underlying().(*types.Chan); ok {
-		tclass := "type:" + typeKey(ct.Elem())
+		tclass := "type:" + strings.ReplaceAll(typeKey(ct.Elem()), " ", "_")
 		if inv := fc.chanInvariant(tclass); inv != nil {
 			if class == "" {
 				class = tclass
@@ -326,6 +326,7 @@ func (fc *FnCtx) doSend(x *ssa.Send) {
 	if inv != nil {
 		env := fc.anchorEnv()
 		env.bound["m"] = fc.operand(x.X)
+		env.bound["ch"] = ch
 		n := fc.ordinal("send:" + class)
 		_ = n
 		fc.oblige("chan-send", class, env.evalBool(inv), x.Pos(), "channel invariant of "+class)
@@ -349,6 +350,7 @@ func (fc *FnCtx) doRecv(x *ssa.UnOp, ch Val) {
 	if inv != nil {
 		env := fc.anchorEnv()
 		env.bound["m"] = v
+		env.bound["ch"] = ch
 		// plain receives (no ok flag) may deliver the zero value of a closed channel: close() of channels whose
 		// element type has plain receivers is checked against the invariant; comma-ok receives assume it under ok
 		if x.CommaOk {
@@ -413,9 +415,13 @@ func (fc *FnCtx) doSelect(x *ssa.Select) {
 		if s.Dir == types.SendOnly {
 			// a send: invariant obligation under the case being chosen
 			inv, class := fc.chanInvFor(s.Chan)
+			if fc.chanNoDrop(class) && len(x.States) > 1 {
+				fc.obligeAt(fc.cur, "chan-nodrop", class, "false", x.Pos(), "a message for channel "+class+" may be dropped: the send is one of several select cases")
+			}
 			if inv != nil {
 				env := fc.anchorEnv()
 				env.bound["m"] = fc.operand(s.Send)
+				env.bound["ch"] = fc.operand(s.Chan)
 				fc.obligeAt(fc.cur, "chan-send", class, implies(eq(idx, bvLit(uint64(si), 64)), env.evalBool(inv)), x.Pos(), "channel invariant of "+class)
 			}
 			continue
@@ -426,6 +432,7 @@ func (fc *FnCtx) doSelect(x *ssa.Select) {
 		if inv != nil {
 			env := fc.anchorEnv()
 			env.bound["m"] = v
+			env.bound["ch"] = fc.operand(s.Chan)
 			fc.cur.assume(implies(eq(idx, bvLit(uint64(si), 64)), env.evalBool(inv)))
 		}
 		out.L = append(out.L, v.L...)
@@ -687,4 +694,11 @@ func e2ghostNames(name string, ns *NameSet) {
 	for k := 0; k < 4; k++ {
 		ns.Add(fmt.Sprintf("ghost|%s|%d", name, k))
 	}
+}
+
+func (fc *FnCtx) chanNoDrop(class string) bool {
+	if fc.c != nil && fc.c.ChanNoDrop[class] {
+		return true
+	}
+	return false
 }
